@@ -27,7 +27,47 @@ let flush_section name =
 let sgnc v = let i = int_of_z v in if i < 0 then '-' else if i > 0 then '+' else '0'
 let bc b = if b then '1' else '0'
 
-let () =
+(* ---- random-stream mode (argv[1] = "rand"): see harness/c16_geom.cpp rand_mode for the line format *)
+let rec float_of_pos = function XH -> 1.0 | XO p -> 2.0 *. float_of_pos p | XI p -> 2.0 *. float_of_pos p +. 1.0
+let float_of_z = function Z0 -> 0.0 | Zpos p -> float_of_pos p | Zneg p -> -. (float_of_pos p)
+let float_of_bigq q = float_of_z q.qnum /. float_of_pos q.qden
+let read_tuples f =
+  (try while true do
+    let line = input_line stdin in
+    match List.map int_of_string (List.filter (fun s -> s <> "") (String.split_on_char ' ' (String.trim line))) with
+    | [ax; ay; bx; by_; cx; cy; dx; dy; qx; qy] ->
+        f (pt_of ax ay) (pt_of bx by_) (pt_of cx cy) (pt_of dx dy) (pt_of qx qy)
+    | _ -> ()
+  done with End_of_file -> ())
+
+let rand_mode () =
+  let m77 = q_of_int (-77) in
+  read_tuples (fun a b c d q ->
+    let o = Buffer.create 32 in
+    let add ch = Buffer.add_char o ch in
+    let vd = vecDir a b c q0 in
+    add (sgnc vd);
+    add (bc (pointOnLine a b c q0));
+    add (bc (colinear a b c q0));
+    add (if int_of_z vd = 0 then bc (inBetween a b c) else '.');
+    add (bc (segmentIntersect a b c d));
+    List.iter (fun seen -> let (r, s) = segmentShapeIntersect a b c d seen in
+      add (Char.chr (48 + (if r then 2 else 0) + (if s then 1 else 0)))) [false; true];
+    List.iter (fun ig -> add (bc (inValidRegion ig a b c d))) [false; true];
+    add (sgnc (cornerSide a b c d));
+    let ((sc, sx), sy) = segmentIntersectPoint a b c d m77 m77 in
+    let ((rc, rx), ry) = rayIntersectPoint a b c d m77 m77 in
+    add (Char.chr (48 + int_of_z sc));
+    add (Char.chr (48 + int_of_z rc));
+    let poly = [a; b; c; d] in
+    List.iter (fun cb -> List.iter (fun p -> add (bc (inPoly poly p cb))) [a; q; d]) [false; true];
+    List.iter (fun p -> add (bc (inPolyGen poly p))) [a; q; d];
+    print_string (Buffer.contents o);
+    if int_of_z sc = 1 then Printf.printf " %.17g %.17g" (float_of_bigq sx) (float_of_bigq sy) else print_string " - -";
+    if int_of_z rc = 1 then Printf.printf " %.17g %.17g" (float_of_bigq rx) (float_of_bigq ry) else print_string " - -";
+    Printf.printf " %.17g\n" (float_of_bigq (manhattanDist a b)))
+
+let grid_mode () =
   let g = int_of_string Sys.argv.(1) and gp = int_of_string Sys.argv.(2) in
   let pts = Array.init (g * g) (fun i -> pt_of (i / g) (i mod g)) in
   let n = Array.length pts in
@@ -62,6 +102,12 @@ let () =
     print_string "## manhattanDist 0\n";
     for i = 0 to n-1 do for j = 0 to n-1 do
       Printf.printf "%.17g\n" (float_of_q (manhattanDist pts.(i) pts.(j))) done done;
+    print_string "## projection_xy 0\n";
+    for i = 0 to n-1 do for j = 0 to n-1 do for k = 0 to n-1 do
+      if i <> k then begin
+        let p = projection pts.(i) pts.(j) pts.(k) in
+        Printf.printf "%d %d %d %.17g %.17g\n" i j k (float_of_bigq p.px) (float_of_bigq p.py) end
+    done done done;
     let pp = Array.init (gp * gp) (fun i -> pt_of (i / gp) (i mod gp)) in
     let m = Array.length pp in
     List.iter (fun cb ->
@@ -85,3 +131,5 @@ let () =
       for q = 0 to m-1 do add (bc (inPolyGen poly pp.(q))) done
     done done done done;
     flush_section "inPolyGen4"
+
+let () = if Array.length Sys.argv > 1 && Sys.argv.(1) = "rand" then rand_mode () else grid_mode ()
